@@ -249,11 +249,13 @@ def run(vc):
         vc.explore(f"create from type[{element}]", h_create, max_paths=200)
 
     # ---- batch create from type (the property does not distinguish how the element is created) ------------------------
-    # create_transformers is left out: it is known not to apply shift / tap data of the type (known finding of C24, pinned by a test)
+    # create_transformers is known not to apply shift / tap data of the type (known finding of C24, pinned by a test, reported there): those
+    # columns (C24.TRAFO_DROPPED) are not repeated here, every other parameter of the type is under the same obligation
     from pyvc.arrays import Space, Arr
     from contracts import C24
     sp = Space.get("batch")
     batch_creators = {"line": ("pandapower.create.line_create:create_lines", 2, True),
+                      "trafo": ("pandapower.create.trafo_create:create_transformers", 2, False),
                       "trafo3w": ("pandapower.create.trafo_create:create_transformers3w", 3, False)}
     for element, (fn, nbus, with_length) in batch_creators.items():
         def h_bcreate(p, element=element, fn=fn, nbus=nbus, with_length=with_length):
@@ -276,12 +278,16 @@ def run(vc):
                 raise EngineError(f"{fn}: {len(cap['batch'])} entry dicts")
             entries = cap["batch"][0]
             for c in TYPES[element]["required"] + TYPES[element]["optional"]:
-                if c not in tab.cols or c in ("q_mm2", "alpha"):
+                if c not in tab.cols or c in ("q_mm2", "alpha") or (element == "trafo" and c in C24.TRAFO_DROPPED):
                     continue
                 pr = entries.presence(c)
                 prz = z3.BoolVal(pr) if isinstance(pr, bool) else pr
                 val = C24._elem(entries.raw(c)) if pr is not False else None
-                p.prove(f"create-batch[{element}]:{c}", z3.Implies(_has(pres[c]), z3.And(prz, _eqz(val, data.raw(c)))),
+                if val is None or (isinstance(val, float) and val != val):
+                    same = z3.BoolVal(False)            # the batch writes nothing / NaN for this column
+                else:
+                    same = _eqz(val, data.raw(c))
+                p.prove(f"create-batch[{element}]:{c}", z3.Implies(_has(pres[c]), z3.And(prz, same)),
                         meta=dict(part="create-batch", element=element),
                         note=f"{c} defined by the type reaches every row of the batch with the type's value")
         vc.explore(f"batch create from type[{element}]", h_bcreate, max_paths=400)
